@@ -518,6 +518,12 @@ Dec_density(b, hints) ==
        [v |-> [k |-> k, dim |-> dim, n |-> U64s(b, 16), empty |-> FALSE, nret |-> U32(b, 12), pts |-> pts],
         c |-> cc \o << <<"preamble-ints", pre = 6>>, <<"num-retained", U32(b, 12) = Len(pts)>> >>]
 
+\* ================================================================== CPC code tables: one row of a published table as raw bytes (compared with the baseline record)
+Dec_cpctab(b, hints) ==
+  [v |-> [len |-> Len(b)],
+   c |-> << <<"column-permutation-is-a-permutation-of-0..55", hints.table = "perm" => (Len(b) = 56 /\ ToSetL(b) = 0..55)>>,
+            <<"code-table-size", hints.table = "codes" => Len(b) \in {512, 130}>> >>]
+
 \* ================================================================== dispatch
 Dec(fam, b, hints) ==
   CASE fam = "theta" -> Dec_theta(b, hints) [] fam = "tuple" -> Dec_tuple(b, hints) [] fam = "aod" -> Dec_aod(b, hints)
@@ -525,7 +531,7 @@ Dec(fam, b, hints) ==
     [] fam = "req" -> Dec_req(b, hints) [] fam = "quantiles" -> Dec_quantiles(b, hints) [] fam = "tdigest" -> Dec_tdigest(b, hints)
     [] fam = "fi" -> Dec_fi(b, hints) [] fam = "countmin" -> Dec_countmin(b, hints) [] fam = "varopt" -> Dec_varopt(b, hints)
     [] fam = "varoptu" -> Dec_varoptu(b, hints) [] fam = "ebpps" -> Dec_ebpps(b, hints) [] fam = "bloom" -> Dec_bloom(b, hints)
-    [] fam = "density" -> Dec_density(b, hints)
+    [] fam = "density" -> Dec_density(b, hints) [] fam = "cpctab" -> Dec_cpctab(b, hints)
 
 \* projection fields that are sets in the decoded value (the layout leaves their order free, or the API reports them in another order)
 SetFields(fam) == CASE fam = "hll" -> {"coupons"} [] fam = "kll" -> {"wts"} [] fam = "fi" -> {"rows"} [] fam = "bloom" -> {"bits"} [] OTHER -> {}
